@@ -278,7 +278,7 @@ def _dismantle(tree):
 def run_shard(ctx):
     sys.setrecursionlimit(20000)
     e1.drive(ctx, ctx.tier, lambda tree, leaves, dsl, cfg: check(ctx, tree, leaves, dsl, cfg),
-             profile='small' if ctx.tier == 'quick' else 'full')
+             profile='small' if ctx.tier == 'quick' else 'full', extra_strata=(('aliasing', tuple(gen.aliasing_trees())),))
     for i, c in enumerate(malformed_cases()):
         if ctx.mine(i):
             check_malformed(ctx, c)
